@@ -198,3 +198,55 @@ Definition is_close (i : input addr) : bool := match i with IClose _ => true | _
 Definition wf_input (empty : addr) (i : input addr) : Prop :=
   match i with IDgram _ a _ _ => a <> empty | _ => True end.
 End C08Spec.
+
+(* ---- the code before /repo commit bbf8060 (kept as documentation of the finding): the override test
+   was `e.OverrideAddr != ""` in Feed, so a hook rewriting to the empty string switched the override off
+   while the original, unchecked destination was seeded into the cache as allowed ---- *)
+Section C08Old.
+Variable addr : Type.
+Variable aeqb : addr -> addr -> bool.
+Variable empty : addr.
+Variable P : addr -> bool.
+Variable hook : addr -> hookres addr.
+
+Definition dial_old (a : addr) (fault : bool) : option (sess addr) * option addr :=
+  match hook a with
+  | HFail => (None, None)
+  | hr =>
+      let actual := match hr with HRewrite a' => a' | _ => a end in
+      if P actual && negb fault
+      then
+        let ov := if aeqb a actual then empty else actual in
+        let orig := if aeqb a actual then empty else a in
+        (Some (mkSess addr ov orig (if aeqb ov empty then [(a, true)] else [])), Some actual)
+      else (None, Some actual)
+  end.
+
+Definition feed_tail_old (s : sess addr) (a ev : addr) (dialed : option addr) : state addr * obs addr :=
+  if negb (aeqb (s_ov addr s) empty)
+  then (Some s, mkObs addr (OFwd addr (s_ov addr s)) dialed false None)
+  else
+    let r := checkAddr addr aeqb P (s_cache addr s) a ev in
+    (Some (mkSess addr (s_ov addr s) (s_orig addr s) (c_cache addr r)),
+     mkObs addr (if c_verdict addr r then OFwd addr a else ODrop addr) dialed (c_consulted addr r) (c_evicted addr r)).
+
+Definition step_old (st : state addr) (i : input addr) : state addr * obs addr :=
+  match i with
+  | IDgram _ a fault ev =>
+      match st with
+      | Some s => feed_tail_old s a ev None
+      | None =>
+          match dial_old a fault with
+          | (Some s, d) => feed_tail_old s a ev d
+          | (None, d) => (None, mkObs addr (ODialFail addr) d false None)
+          end
+      end
+  | _ => step addr aeqb empty P hook st i
+  end.
+
+Fixpoint run_old (st : state addr) (ins : list (input addr)) : state addr * list (obs addr) :=
+  match ins with
+  | [] => (st, [])
+  | i :: t => let (st1, o) := step_old st i in let (st2, os) := run_old st1 t in (st2, o :: os)
+  end.
+End C08Old.
